@@ -60,7 +60,15 @@ def check_line(l, t, off):
 
 
 def gen_quad(rng):
-    fam = rng.choice(['random', 'linear-x', 'linear-y', 'int', 'flat', 'linear-decimal', 'flat-start'])
+    fam = rng.choice(['random', 'linear-x', 'linear-y', 'int', 'flat', 'linear-decimal', 'flat-start', 'end-hook'])
+    if fam == 'end-hook':
+        # the curve turns round in x within the first (or last) percent of its parameter: x(t) has its extreme at ts in (0.0015, 0.009)
+        a = rng.uniform(50, 400); ts = rng.uniform(0.0015, 0.009); x0 = rng.uniform(-100, 100); y0 = rng.uniform(-100, 100)
+        # x(t) = x0 + a ((t - ts)^2 - ts^2)  ->  control abscissae x0, x0 - a ts, x0 + a (1 - 2 ts)
+        q = QuadraticBezier(P(x0, y0), P(x0 - a * ts, y0 + rng.uniform(20, 200)), P(x0 + a * (1 - 2 * ts), y0 + rng.uniform(-100, 300)))
+        if rng.random() < 0.5: q = QuadraticBezier(*[P(p.y, p.x) for p in q.points])
+        if rng.random() < 0.5: q = QuadraticBezier(q[2], q[1], q[0])
+        return fam, q
     if fam == 'flat-start':
         # the control point has EXACTLY the abscissa (or ordinate) of the start (or end) point: the linear coefficient of that coordinate's quadratic is 0.0
         a = P(float(rng.randint(-200, 200)), float(rng.randint(-200, 200))) if rng.random() < 0.6 else P(rng.uniform(-200, 200), rng.uniform(-200, 200))
@@ -170,6 +178,8 @@ def search(ctx):
         if f: fails.append({'class': line_class(l, t, f), 'what': f[0], 'input': {'kind': 'line', 'segment': gen.seg_json(l), 't': t, 'off': off}, 'observed': f, 'expected': 'C15 line clauses'})
     for _ in range(ctx.n(500, 12000)):
         fam, q = gen_quad(rng); t = gen.tvalue(rng)
+        if fam == 'end-hook' and rng.random() < 0.8:
+            t = rng.choice([rng.uniform(0.0, 0.02), rng.uniform(0.98, 1.0)])          # in the sliver next to the end where the curve turns round (either end: the curve may be reversed)
         f = check_quad(q, t)
         if f is None: dist['quad/skipped-stationary'] = dist.get('quad/skipped-stationary', 0) + 1; continue
         ev += 1; dist['quad/' + fam] = dist.get('quad/' + fam, 0) + 1; seen.add((gen.seg_key(q), t))
